@@ -88,6 +88,10 @@ class DataLoader:
         raise StopIteration
         
     def __getitem__(self, idx) -> tuple:
+        n_batches = self.__len__()
+        if not -n_batches <= idx < n_batches: # a slice past the end would silently be a short or empty batch
+            raise IndexError(f"Batch index {idx} is out of range for {n_batches} batches")
+        if idx < 0: idx += n_batches
         start = idx*self.batach_size
         end = (idx*self.batach_size) + self.batach_size
         
